@@ -26,9 +26,12 @@
     about the order of the upper levels.
   * SplitListSet — `splitWf` in full for the dump that tells dummy nodes from items by the kind of the node
     (`C18_splitlist_reachable_wf`); the real dump tells them by the bucket table, which is the same whenever every
-    linked dummy is published (`C18_splitlist_table_dump`; that this is so at quiescence is not in the invariant).
+    linked dummy is published (`C18_splitlist_table_dump`), and that is so in every reachable state in which no thread
+    is between linking a dummy node and publishing it, in particular in every quiescent state
+    (`C18_splitlist_publication_invariant`, `C18_splitlist_published`, `C18_splitlist_quiescent_table_dump`).
   * Item counters: the Michael, Lazy and SkipList machines do not model the item counter.  The SplitList machine has
-    `m_ItemCounter` (`items`), but its invariant has no clause about it; `size() = |abs|` at quiescence is not proved.
+    `m_ItemCounter` (`items`): counting invariant for every reachable state (`C18_splitlist_counter_invariant`) and
+    `size() = |abs| mod 2^64` at quiescence (`C18_splitlist_quiescent_size`, `…_exact`).
 -/
 import CdsVerif.Algo.Michael.Snap
 import CdsVerif.Algo.Lazy.Snap
@@ -262,10 +265,9 @@ theorem C18_splitlist_reachable_wf_cfg64 (mode cap lf : Nat) (hcap : cap ≤ 2 ^
   C18_splitlist_reachable_wf _ (SplitList.cfg64_hyp mode cap lf hcap) (SplitList.cfg64_word64 mode cap lf) sched s os h
 
 /-- The dump as the real client computes it ("is a dummy" = the bucket table refers to the node) is the dump above
-    in every reachable state in which exactly the linked dummy nodes are referred to by the table.
-    (PARTIAL with respect to quiescence: that `SplitList.Published s` holds whenever all threads are idle is not in the
-    invariant of the machine — missing clause: "a linked dummy node is published or the thread that linked it is at
-    `iPub`" —; between the linking CAS and the publishing store it is false, see the example.) -/
+    in every reachable state in which exactly the linked dummy nodes are referred to by the table (`Published`; see
+    `C18_splitlist_published` for when that is; between the linking CAS and the publishing store it is false, see the
+    example). -/
 theorem C18_splitlist_table_dump (c : SplitList.Cfg) (hc : SplitList.SOHyp c) (hw : SplitList.Word64 c)
     (sched : List (Tid × Act)) (s : SplitList.St) (os : List (Tid × Obs))
     (h : (SplitList.model c).run (SplitList.init c) sched = some (s, os)) (hp : SplitList.Published s) :
@@ -293,21 +295,86 @@ theorem C18_splitlist_traversal (c : SplitList.Cfg) (hc : SplitList.SOHyp c) (hw
   have := C18_splitlist _ h1
   exact ⟨this.1, this.2.1, this.2.2.1, this.2.2.2.1, h2, h3⟩
 
-/- Item counter.  The SplitList machine models `m_ItemCounter` (`St.items`: `add items` after the linking CAS of a
-   successful `insert`, `sub items` after the marking CAS of a successful `erase`, `size_t` arithmetic).  The statement
-   at full strength (NOT proved):
+/-- **Publication invariant, every reachable state.**  A linked dummy node is referred to by the bucket table, by an
+    entry below the current bucket count `2 ^ m_nBucketCountLog2`, or some thread is at the store that publishes it
+    (`iPub`, just after the CAS that linked it); and every set table entry lies below the bucket count. -/
+theorem C18_splitlist_publication_invariant (c : SplitList.Cfg) (hc : SplitList.SOHyp c)
+    (sched : List (Tid × Act)) (s : SplitList.St) (os : List (Tid × Obs))
+    (h : (SplitList.model c).run (SplitList.init c) sched = some (s, os)) :
+    (∀ d, d ∈ SplitList.absNodes s → d % 2 = 0 →
+      (∃ b, b < 2 ^ s.cnt2 ∧ s.table b = some d) ∨ ∃ t o stk, s.pc t = .iPub o stk d) ∧
+    (∀ b d, s.table b = some d → b < 2 ^ s.cnt2) := by
+  obtain ⟨L, hl, hP, -, hT⟩ := SplitList.pbinv_reachable hc s ⟨sched, os, h⟩
+  refine ⟨fun d hd hev => ?_, hT⟩
+  rw [hl.absNodes_eq] at hd
+  rcases hP d hd hev with ⟨b, hb⟩ | ⟨t, ht⟩
+  · exact Or.inl ⟨b, hT b d hb, hb⟩
+  · obtain ⟨o, stk, e⟩ := SplitList.pcPub_spec ht
+    exact Or.inr ⟨t, o, stk, e⟩
 
-     theorem C18_splitlist_quiescent_size (c : SplitList.Cfg) (hc : SplitList.SOHyp c) sched s os
-         (h : (SplitList.model c).run (SplitList.init c) sched = some (s, os)) (hq : ∀ t, s.pc t = .idle) :
-         s.items = (SplitList.absKeys s).length % 2 ^ 64
+/-- In every reachable state in which no thread is at the publishing store (`SplitList.NoPub`), the bucket table
+    (below the bucket count) refers to exactly the linked dummy nodes. -/
+theorem C18_splitlist_published (c : SplitList.Cfg) (hc : SplitList.SOHyp c)
+    (sched : List (Tid × Act)) (s : SplitList.St) (os : List (Tid × Obs))
+    (h : (SplitList.model c).run (SplitList.init c) sched = some (s, os)) (hn : SplitList.NoPub s) :
+    SplitList.Published s := by
+  obtain ⟨L, hl, hP, -, hT⟩ := SplitList.pbinv_reachable hc s ⟨sched, os, h⟩
+  exact SplitList.published_of_noPub hl hP hT hn
 
-   Missing: the invariant of the machine (`SplitList.SInvL`) has no clause about `items`.  What has to be added is a
-   counting invariant over the (finitely many) threads that have ever acted,
-       items + #{ t | pc t ∈ { cLd1, cAdd _ } }  ≡  |absMap| + #{ t | pc t ∈ { eUnl …, cSub _ } }   (mod 2^64),
-   with the step facts "the linking CAS of a top-level insert adds one element to `absMap`", "the marking CAS removes
-   one", "no other step changes the number of elements" (derivable from `StepEff.lp` / `nolp` and `Spec.map`).  The
-   example below evaluates `items` on a quiescent state of a concrete run (3 = |{4, 2, 6}|); on real runs the
-   comparison `size() = |abs|` is made by the snapshot client (`SIZE` line, variants `*_cnt`). -/
+/-- **C18 for every quiescent reachable state of the SplitListSet machine, the dump as the REAL client computes it**
+    (dummy nodes = the nodes the bucket table refers to): it is the kind-based dump, it is well-formed, its abstraction
+    is the abstract set, and the present keys are pairwise different. -/
+theorem C18_splitlist_quiescent_table_dump (c : SplitList.Cfg) (hc : SplitList.SOHyp c) (hw : SplitList.Word64 c)
+    (sched : List (Tid × Act)) (s : SplitList.St) (os : List (Tid × Obs))
+    (h : (SplitList.model c).run (SplitList.init c) sched = some (s, os)) (hq : ∀ t, s.pc t = .idle) :
+    SplitList.tabSnapOf s = SplitList.snapOf s ∧ splitWf (SplitList.tabSnapOf s) = true ∧
+    splitAbs (SplitList.tabSnapOf s) = SplitList.absKeys s ∧ (SplitList.absKeys s).Nodup := by
+  have hp := C18_splitlist_published c hc sched s os h (SplitList.noPub_of_idle hq)
+  obtain ⟨h1, h2, h3⟩ := C18_splitlist_table_dump c hc hw sched s os h hp
+  exact ⟨h1, h2, h3, (C18_splitlist_reachable_wf c hc hw sched s os h).2.2⟩
+
+/-! #### Item counter
+
+  The SplitList machine models `m_ItemCounter` (`St.items`: `add items` after the linking CAS of a successful `insert`,
+  `sub items` after the marking CAS of a successful `erase`, `size_t` arithmetic). -/
+
+/-- **Counting invariant, every reachable state.**  For a duplicate-free list `T` of threads outside which every thread
+    is idle: the counter plus the number of threads that have linked an item but not yet incremented
+    (`SplitList.addP`: at `cLd1` / `cAdd`) equals, modulo `2^64`, the number of present keys plus the number of threads
+    that have marked an item but not yet decremented (`SplitList.subP`: at `eUnl` / `cSub`); the counter is a 64-bit
+    word. -/
+theorem C18_splitlist_counter_invariant (c : SplitList.Cfg) (hc : SplitList.SOHyp c)
+    (sched : List (Tid × Act)) (s : SplitList.St) (os : List (Tid × Obs))
+    (h : (SplitList.model c).run (SplitList.init c) sched = some (s, os)) :
+    ∃ T : List Tid, T.Nodup ∧ (∀ t, t ∉ T → s.pc t = .idle) ∧ s.items < 2 ^ 64 ∧
+      (s.items + T.countP (fun t => SplitList.addP (s.pc t))) % 2 ^ 64 =
+        ((SplitList.absKeys s).length + T.countP (fun t => SplitList.subP (s.pc t))) % 2 ^ 64 := by
+  obtain ⟨L, -, T, h1, h2, h3, h4⟩ := SplitList.scinv_reachable hc s ⟨sched, os, h⟩
+  have e : (2 : Nat) ^ 64 = 18446744073709551616 := by decide
+  refine ⟨T, h1, h2, by rw [e]; exact h3, ?_⟩
+  rw [e]
+  simpa [SplitList.absKeys] using h4
+
+/-- **`size()` at quiescent states.**  When no operation is in progress the item counter is the number of present keys,
+    modulo the word size … -/
+theorem C18_splitlist_quiescent_size (c : SplitList.Cfg) (hc : SplitList.SOHyp c)
+    (sched : List (Tid × Act)) (s : SplitList.St) (os : List (Tid × Obs))
+    (h : (SplitList.model c).run (SplitList.init c) sched = some (s, os)) (hq : ∀ t, s.pc t = .idle) :
+    s.items = (SplitList.absKeys s).length % 2 ^ 64 := by
+  obtain ⟨L, -, T, hT⟩ := SplitList.scinv_reachable hc s ⟨sched, os, h⟩
+  have e : (2 : Nat) ^ 64 = 18446744073709551616 := by decide
+  rw [e]
+  simpa [SplitList.absKeys] using hT.quiescent hq
+
+/-- … hence exactly that number while fewer than `2^64` keys are present; `empty()` (= `size() == 0`) agrees as well. -/
+theorem C18_splitlist_quiescent_size_exact (c : SplitList.Cfg) (hc : SplitList.SOHyp c)
+    (sched : List (Tid × Act)) (s : SplitList.St) (os : List (Tid × Obs))
+    (h : (SplitList.model c).run (SplitList.init c) sched = some (s, os)) (hq : ∀ t, s.pc t = .idle)
+    (hb : (SplitList.absKeys s).length < 2 ^ 64) :
+    s.items = (SplitList.absKeys s).length ∧ (s.items = 0 ↔ SplitList.absKeys s = []) := by
+  have := C18_splitlist_quiescent_size c hc sched s os h hq
+  rw [Nat.mod_eq_of_lt hb] at this
+  exact ⟨this, by rw [this]; exact List.length_eq_zero_iff⟩
 
 /-- Non-vacuity (the run of `Props/C14SplitList.lean`, harness configuration): keys 2, 4, 6 inserted through bucket
     0, the table grows to 4 buckets, `find 2` initialises bucket 2 — its dummy lands between key 4 and key 2. -/
@@ -317,7 +384,7 @@ def splitSched : List (Tid × Act) :=
    (0, .invoke (ins 6 30))] ++ steps 0 17 ++ [(0, .ret), (1, .invoke (fnd 2))] ++ steps 1 22 ++ [(1, .ret)]
 
 set_option synthInstance.maxSize 2000 in
-/-- the quiescent end: kind-based and table-based dump agree, `m_ItemCounter` is 3 -/
+/-- the quiescent end: kind-based and table-based dump agree, `m_ItemCounter` is 3 = the number of present keys -/
 example : ((SplitList.model splitCfg).run (SplitList.init splitCfg) splitSched).map
     (fun r => (SplitList.snapOf r.1, SplitList.tabSnapOf r.1 == SplitList.snapOf r.1, splitWf (SplitList.snapOf r.1),
       splitAbs (SplitList.snapOf r.1), SplitList.absKeys r.1, r.1.items)) =
@@ -325,11 +392,18 @@ example : ((SplitList.model splitCfg).run (SplitList.init splitCfg) splitSched).
            ⟨4611686018427387905, false, 2, false⟩, ⟨6917529027641081857, false, 6, false⟩],
           true, true, [4, 2, 6], [4, 2, 6], 3) := by decide +kernel
 
-/-- just after the CAS that links the dummy of bucket 2, before `st b2 d1`: the kind-based dump is well-formed, the
-    table-based dump is not (an even split-order key with `isDummy = 0`) -/
+/-- just after the CAS that links the dummy of bucket 2 (node id 2), before `st b2 d1`: the kind-based dump is
+    well-formed, the table-based dump is not (an even split-order key with `isDummy = 0`); thread 1 is at the publishing
+    store with that node (second alternative of `C18_splitlist_publication_invariant`) -/
 example : ((SplitList.model splitCfg).run (SplitList.init splitCfg) (splitSched.take 59)).map
     (fun r => (splitWf (SplitList.snapOf r.1), (SplitList.tabSnapOf r.1)[2]?, splitWf (SplitList.tabSnapOf r.1),
-      r.1.table 2)) =
-    some (true, some ⟨4611686018427387904, false, 0, false⟩, false, none) := by decide +kernel
+      r.1.table 2, SplitList.pcPub (r.1.pc 1))) =
+    some (true, some ⟨4611686018427387904, false, 0, false⟩, false, none, some 2) := by decide +kernel
+
+/-- the counting invariant in a non-quiescent state: thread 0's third insert has linked its item (3 present keys) and
+    is at `cAdd`, the counter still reads 2 -/
+example : ((SplitList.model splitCfg).run (SplitList.init splitCfg) (splitSched.take 36)).map
+    (fun r => (r.1.items, (SplitList.absKeys r.1).length, SplitList.addP (r.1.pc 0), SplitList.subP (r.1.pc 0))) =
+    some (2, 3, true, false) := by decide +kernel
 
 end CdsVerif.Props.C18Reach
